@@ -29,6 +29,46 @@ Check C12_values_recognised :
     sw_loop (S (S fuel)) Fixed false tabs e T word s ci log = Ok (true, to, String.length word, log).
 Print Assumptions C12_values_recognised.
 
+(** The loop pinned in /repo, exactly: it also recognises [v] when no literal of the array -- expected at this
+    point or not -- properly extends [v] (and [v]'s text is not shadowed by a disabled duplicate) ... *)
+Theorem C12_pinned_outside_known :
+  forall fuel tabs e T word s st ci v to log,
+    all_plain (lits_of T) -> plain word = true -> sorted_desc (lits_of T) ->
+    assocN s (t_mlit T) = Some st ->
+    sdrop ci word = v -> (ci < String.length word)%nat ->
+    first_enabled (lits_of T) st v = Some to ->
+    (forall id l, In (id, l) (lits_of T) -> String.prefix v l = true -> l = v /\ assocN id st <> None) ->
+    sw_loop (S (S fuel)) Pinned false tabs e T word s ci log = Ok (true, to, String.length word, log).
+Proof. exact pinned_value_recognised_outside_known. Qed.
+Check C12_pinned_outside_known :
+  forall fuel tabs e T word s st ci v to log,
+    all_plain (lits_of T) -> plain word = true -> sorted_desc (lits_of T) ->
+    assocN s (t_mlit T) = Some st ->
+    sdrop ci word = v -> (ci < String.length word)%nat ->
+    first_enabled (lits_of T) st v = Some to ->
+    (forall id l, In (id, l) (lits_of T) -> String.prefix v l = true -> l = v /\ assocN id st <> None) ->
+    sw_loop (S (S fuel)) Pinned false tabs e T word s ci log = Ok (true, to, String.length word, log).
+Print Assumptions C12_pinned_outside_known.
+
+(** ... and it refuses [v] as soon as some literal of the array properly extends it (the known finding: this is the
+    class lib/vf/checks/c12.py attributes violations to). *)
+Theorem C12_pinned_known_class :
+  forall fuel tabs e T word s st ci v log,
+    all_plain (lits_of T) -> plain word = true -> sorted_desc (lits_of T) ->
+    assocN s (t_mlit T) = Some st ->
+    sdrop ci word = v -> (ci < String.length word)%nat ->
+    (exists id l, In (id, l) (lits_of T) /\ String.prefix v l = true /\ l <> v) ->
+    sw_loop (S fuel) Pinned false tabs e T word s ci log = Ok (false, s, ci, log).
+Proof. exact pinned_value_refused. Qed.
+Check C12_pinned_known_class :
+  forall fuel tabs e T word s st ci v log,
+    all_plain (lits_of T) -> plain word = true -> sorted_desc (lits_of T) ->
+    assocN s (t_mlit T) = Some st ->
+    sdrop ci word = v -> (ci < String.length word)%nat ->
+    (exists id l, In (id, l) (lits_of T) /\ String.prefix v l = true /\ l <> v) ->
+    sw_loop (S fuel) Pinned false tabs e T word s ci log = Ok (false, s, ci, log).
+Print Assumptions C12_pinned_known_class.
+
 (** (b), on ANY within-word tables: when the typed rest is a proper prefix of a literal enabled in [s], the
     repaired matcher stays in [s] in front of it ... *)
 Theorem C12_partial_stops :
